@@ -182,14 +182,15 @@ Theorem C16_refines_dict_del_any_receiver :
 Proof. exact refines_dict_del_recv. Qed.
 Print Assumptions C16_refines_dict_del_any_receiver.
 
-(* rejected insertions (any receiver) leave the dictionary unchanged -- PARTIAL: proved for the order "re-target, then
-   store" (ab = false, the order of the code when this was written); in the other order an exception escaping from the
-   re-targeting loop comes after the member was stored, and showing that no such exception can arise under Inv is missing *)
-Theorem C16_refines_dict_rejected_partial :
-  forall ab s a r P k t s' e, ab = false -> Inv s -> step ab s (ONew a r P k t) = (s', Some e) ->
+(* rejected insertions (any receiver) leave the dictionary unchanged; in the order "store, then re-target" (ab = true, the
+   order of the code since 2e2fded) the operation has to be inside the discipline: the loop that runs after the store then
+   raises nothing (a_key of the state after the store) *)
+Theorem C16_refines_dict_rejected :
+  forall ab s a r P k t s' e, Inv s -> (ab = true -> top_down s (ONew a r P k t) = true) ->
+  step ab s (ONew a r P k t) = (s', Some e) ->
   forall q, dict_of s' q = dict_of s q.
 Proof. exact refines_dict_new_rejected. Qed.
-Print Assumptions C16_refines_dict_rejected_partial.
+Print Assumptions C16_refines_dict_rejected.
 
 (* the operations on aliases leave the dictionary unchanged *)
 Theorem C16_refines_dict_alias_ops :
